@@ -231,6 +231,8 @@ def run(ctx):
     # ---- parameter objects derived from AutoParameterObject
     auto_objects(ctx, root)
     config_object_probe(ctx, root)
+    object_default_probe(ctx, root)
+    nested_mount_probe(ctx, root)
 
 
 K2_SRC = '''
@@ -431,6 +433,107 @@ def auto_objects(ctx, root):
         if impl != mo:
             ctx.diverge('auto-parameter-object:repr', case, impl, mo)
     b.cleanup_module()
+
+
+OBJDEF_SRC = '''
+class Plain(AutoParameterObject):
+    def __init__(self, a=None, b=None):
+        self.a = a; self.b = b
+
+
+class NoEq:
+    """a default that is an arbitrary object (identity equality only)"""
+    def __repr__(self):
+        return 'NoEq()'
+
+
+class WithObj(Task):
+    class Meta:
+        name = 'withobj'
+        parameters = [Parameter('x'), Parameter('o', default=Plain(1, [2]), dont_persist_default_value=True),
+                      Parameter('q', default=NoEq(), dont_persist_default_value=True)]
+
+    def run(self, x) -> dict:
+        return {'x': x}
+
+
+class Without(Task):
+    class Meta:
+        name = 'withobj'
+        parameters = [Parameter('x')]
+
+    def run(self, x) -> dict:
+        return {'x': x}
+'''
+
+
+def object_default_probe(ctx, root):
+    """a parameter added with `dont_persist_default_value=True` and left at its default does not move the location — also when the default
+    is an OBJECT (a parameter object, or any object without value equality): the task with such parameters, not mentioned in the config, is
+    stored where the task without them is"""
+    from taskchain import Config
+    spec = {'classes': {'K0': {'name': 'o', 'group': '', 'params': [], 'inputs': [], 'kind': 'json', 'run_args': []}}, 'files': {}, 'main': None}
+    modname = gen.fresh_modname()
+    b = pl.materialize(spec, root / 'od', modname=modname)
+    f = (root / 'od').joinpath(*modname.split('.')).with_suffix('.py')
+    f.write_text(f.read_text() + OBJDEF_SRC)
+    mod = b.module()
+    for k in range(ctx.n(4, 30)):
+        rng = ctx.rng('object-default', k)
+        x = gen.gen_value(rng, 0, 2, gen.SAFE, gen.SAFE)
+        ns = rng.choice([None, 'n'])
+        case = {'probe': 'object default with dont_persist_default_value', 'x': x, 'namespace': ns}
+        ctx.case(case); ctx.count('object-default-probe')
+        paths = []
+        for cls in (mod.Without, mod.WithObj, mod.WithObj):
+            ch = Config(root / 'odd', name='c', namespace=ns, data={'tasks': [cls], 'x': x}).chain()
+            t = ch.tasks[(ns + '::' if ns else '') + 'withobj']
+            paths.append(str(t.data_path))
+        if len(set(paths)) != 1:
+            ctx.fail('a parameter declared dont_persist_default_value and left at its (object) default moved the storage location', case,
+                     {'without_the_parameters': paths[0], 'with_them': paths[1:]})
+    b.cleanup_module()
+
+
+def nested_mount_probe(ctx, root):
+    """the location does not depend on the namespace a pipeline is mounted under — also when the pipeline has inner namespaces of its own and
+    the outer name overlaps textually with an inner one (`rawdata` inside, mounted `as data`; `xn` inside, mounted `as n`; equal names)"""
+    for k in range(ctx.n(8, 60)):
+        rng = ctx.rng('nested-mount', k)
+        inner = rng.choice(['xn', 'rawdata', 'a::b', 'n', 'data'])
+        outers = [None] + rng.sample(['n', 'data', 'b', 'xn', 'a', 'rawdata', 'ta', 'a::b', 'b::a', 'zz'], 4)
+        x = gen.gen_value(rng, 0, 2, gen.SAFE, gen.SAFE)
+        grp = rng.choice(['', 'g'])
+        up = (grp + ':' if grp else '') + 'up'
+        spec = {'classes': {'K0': {'name': 'up', 'group': grp, 'params': [{'name': 'x'}], 'inputs': [], 'kind': 'json', 'run_args': ['x']},
+                            'K1': {'name': 'down', 'group': '', 'params': [{'name': 'y', 'default': 1}],
+                                   'inputs': [{'by': 'name', 'ref': f'{inner}::{up}'}], 'kind': 'json', 'run_args': ['y'], 'pull': [f'{inner}::{up}'],
+                                   'in_kinds': {f'{inner}::{up}': 'json'}}},
+                'files': {'q.json': {'tasks': ['K0'], 'x': x}, 'p.json': {'tasks': ['K1'], 'uses': [f'@cfg/q.json as {inner}']}}, 'main': None,
+                'module': gen.fresh_modname()}
+        for j, o in enumerate(outers):
+            spec['files'][f'main{j}.json'] = {'uses': ['@cfg/p.json' + (f' as {o}' if o else '')]}
+        b = pl.materialize(spec, root / f'nmount{k}', modname=spec['module'])
+        b.module()
+        case = {'probe': 'nested mount', 'inner_namespace': inner, 'outer_namespaces': outers, 'x': x}
+        ctx.case(case); ctx.count('nested-mount-probe')
+        locs = {}
+        for j, o in enumerate(outers):
+            chain, err = pl.build(b, root / f'nmount{k}' / 'data', main=f'main{j}.json')
+            if err:
+                # finding K8: the reference `inner::up`, declared inside the outer namespace, starts with `<outer>::`
+                k8 = o is not None and (inner + '::').startswith(o + '::')
+                ctx.fail('a pipeline with an inner namespace cannot be mounted under an outer namespace', case, {'outer': o, 'error': err},
+                         known='K8' if k8 else None)
+                if k8:
+                    continue
+                break
+            for n, t in chain.tasks.items():
+                locs.setdefault(t.slugname, {})[str(o)] = os.path.relpath(str(t.data_path), str(root / f'nmount{k}' / 'data'))
+        moved = {sl: v for sl, v in locs.items() if len(set(v.values())) > 1}
+        if moved:
+            ctx.fail('mounting a pipeline under another namespace moved a storage location', case, moved)
+        b.cleanup_module()
 
 
 def config_object_probe(ctx, root):
